@@ -693,3 +693,141 @@ func RunPersistKindsCase(seed int64, delayed bool) *HistResult {
 	res.Events = sys.Log.Len()
 	return res
 }
+
+// RunShutdownDirectedCase: two directed shutdown scenarios.
+//
+//	variant 0 (C08): a task of a fail-fast job fails WHILE a graceful shutdown is waiting for the job: the job's other
+//	  running tasks are told to stop, as at any other time.
+//	variant 1 (C11): a forced Shutdown is issued while a graceful one is still waiting (escalation): the running jobs are
+//	  canceled and both calls return.
+func RunShutdownDirectedCase(seed int64, variant int) *HistResult {
+	res := &HistResult{Seed: seed, Situations: map[string]map[string]struct{}{}, Evaluations: map[string]int{}}
+	r := rand.New(rand.NewSource(seed))
+	conc := 1 + r.Intn(2)
+	def := definition.PipelineDef{Concurrency: conc, SourcePath: "gen", Tasks: map[string]definition.TaskDef{
+		"a": {Script: []string{"true"}}, "b": {Script: []string{"true"}}, "c": {Script: []string{"true"}, DependsOn: []string{"a"}}}}
+	sys, err := core.NewSys(&definition.PipelinesDef{Pipelines: map[string]definition.PipelineDef{"p": def}}, &core.RecStore{}, core.NewMemOutputStore())
+	if err != nil {
+		res.Inconclusive = err.Error()
+		return res
+	}
+	defer sys.Close()
+	defer DrainAll(sys)
+	count := func(k core.Kind, job string) int {
+		n := 0
+		for _, e := range sys.Log.Events() {
+			if e.Kind == k && (job == "" || e.Job == job) {
+				n++
+			}
+		}
+		return n
+	}
+	var running []string
+	for i := 0; i < conc; i++ {
+		id, cls := sys.Schedule(0, "p", nil, "u")
+		if cls != "ok" {
+			res.Inconclusive = "schedule: " + cls
+			return res
+		}
+		running = append(running, id)
+	}
+	waiting, _ := sys.Schedule(0, "p", nil, "u")
+	if _, err := sys.Quiesce(core.QuiesceOpts{Watchdog: 20 * time.Second}); err != nil {
+		res.Inconclusive = err.Error()
+		return res
+	}
+	graceful := make(chan struct{})
+	go func() { defer close(graceful); _ = sys.Shutdown(5, context.Background(), "graceful") }()
+	observed := false
+	for i := 0; i < 4000; i++ {
+		if _, cls := sys.Schedule(8, "no-such-pipeline-probe", nil, "probe"); cls == "shutting-down" {
+			observed = true
+			break
+		}
+		time.Sleep(50 * time.Microsecond)
+	}
+	// (the waiting job is canceled by the shutdown)
+	_ = waiting
+	switch variant % 2 {
+	case 0:
+		prop := []string{"C08", "C11"}
+		res.sit("C08", fmt.Sprintf("a task fails while a graceful shutdown waits (shutdown observed=%v, %d running jobs)", observed, conc))
+		job := running[0]
+		sys.Release(job, "a", core.Outcome{Kind: core.OutExitFail, Code: 1})
+		// fail-fast: the runner of the job is told to stop (the stop is initiated synchronously with the task's failure
+		// being handled; bounded wait for the delivery), unless nothing happens any more (logical quiescence with b inside)
+		told := false
+		for i := 0; i < 3000; i++ {
+			if count(core.KCancelEnter, job) > 0 || count(core.KCancelSpawned, job) > 0 {
+				told = true
+				break
+			}
+			time.Sleep(time.Millisecond)
+		}
+		if !told {
+			if _, err := sys.Quiesce(core.QuiesceOpts{Watchdog: 10 * time.Second}); err == nil && sys.Gates.AtGate(job, "b") {
+				res.Findings = append(res.Findings, Finding{Props: prop, Sig: "C08:fail-fast-did-not-stop-siblings", Detail: "task a of a fail-fast job failed while a graceful shutdown was waiting for the job: its sibling b, which was running, was never told to stop (the system is quiescent with b still inside the runner)", Step: -1})
+			} else if err != nil {
+				res.Inconclusive = err.Error()
+			}
+		}
+		res.Evaluations["C08"]++
+	case 1:
+		prop := []string{"C11"}
+		res.sit("C11", fmt.Sprintf("forced shutdown issued while a graceful one waits (%d running jobs)", conc))
+		ctx, cancel := context.WithCancel(context.Background())
+		cancel()
+		forced := make(chan error, 1)
+		go func() { forced <- sys.Shutdown(6, ctx, "forced during graceful") }()
+		told := false
+		for i := 0; i < 5000; i++ {
+			n := 0
+			for _, id := range running {
+				if count(core.KCancelEnter, id) > 0 {
+					n++
+				}
+			}
+			if n == len(running) {
+				told = true
+				break
+			}
+			time.Sleep(time.Millisecond)
+		}
+		if !told {
+			if _, err := sys.Quiesce(core.QuiesceOpts{Watchdog: 10 * time.Second}); err == nil {
+				res.Findings = append(res.Findings, Finding{Props: prop, Sig: "C11:forced-shutdown-did-not-cancel-running-job", Detail: fmt.Sprintf("a forced Shutdown (deadline already passed) was issued while a graceful Shutdown was waiting for %d running jobs: the jobs were never told to stop (the system is quiescent with their tasks still inside the runner)", len(running)), Step: -1})
+			} else {
+				res.Inconclusive = err.Error()
+			}
+			DrainAll(sys)
+		}
+		select {
+		case err := <-forced:
+			if told && err == nil {
+				res.Findings = append(res.Findings, Finding{Props: prop, Sig: "C11:forced-shutdown-returned-nil", Detail: "a forced Shutdown that had to cancel running jobs returned nil instead of the context's error", Step: -1})
+			}
+		case <-time.After(20 * time.Second):
+			if res.Inconclusive == "" && len(res.Findings) == 0 {
+				res.Inconclusive = "forced shutdown did not return"
+			}
+		}
+		if told {
+			for _, id := range running {
+				if j, ok := sys.ReadJob(id); ok && !(j.Completed && j.Canceled) {
+					res.Findings = append(res.Findings, Finding{Props: prop, Sig: "C11:job-not-terminal-when-shutdown-returned", Detail: fmt.Sprintf("after the forced Shutdown returned, job %s is reported completed=%v canceled=%v", id[:8], j.Completed, j.Canceled), Step: -1})
+				}
+			}
+		}
+		res.Evaluations["C11"]++
+	}
+	DrainAll(sys)
+	select {
+	case <-graceful:
+	case <-time.After(20 * time.Second):
+		if res.Inconclusive == "" && len(res.Findings) == 0 {
+			res.Inconclusive = "graceful shutdown did not return"
+		}
+	}
+	res.Events = sys.Log.Len()
+	return res
+}
